@@ -174,6 +174,18 @@ int main(int argc, char** argv) {
         regs.erase(a);
         regs.emplace(a, t);
         std::printf("OK\n");
+      } else if (cmd == "WF") {
+        // the model states whether the registry is in the class "what mfront writes"; nothing to compute here
+        std::printf("WF ?\n");
+      } else if (cmd == "PARSEFILE") {
+        // what MFront::analyseTargetsFile does with an existing file
+        is >> a >> b;
+        tfel::utilities::CxxTokenizer tokenizer{b};
+        auto c = tokenizer.begin();
+        const auto t = read<TargetsDescription>(c, tokenizer.end());
+        regs.erase(a);
+        regs.emplace(a, t);
+        std::printf("OK\n");
       } else if (cmd == "TRUNC") {
         // the printed registry cut after every byte count, each through the real tokenizer + reader in a child process:
         // E = exception (what analyseTargetsFile logs), O = parsed and equal to the full registry, L = parsed but
@@ -181,30 +193,53 @@ int main(int argc, char** argv) {
         size_t step = 1;
         is >> a >> step;
         const auto full = print(regs.at(a));
-        std::string status;
+        std::vector<size_t> cuts;
         for (size_t k = 0; k <= full.size(); k += ((k + step > full.size() && k != full.size()) ? full.size() - k : step)) {
+          cuts.push_back(k);
+        }
+        std::string status;
+        // one child handles the cuts in order and reports one character per cut through a pipe; when it dies (signal,
+        // alarm) the cut it was working on is marked C and a new child goes on with the next one
+        size_t next = 0;
+        while (next < cuts.size()) {
           std::fflush(stdout);
+          int fd[2];
+          if (pipe(fd) != 0) {
+            std::fprintf(stderr, "pipe failed\n");
+            return 2;
+          }
           const auto pid = fork();
           if (pid == 0) {
+            close(fd[0]);
             struct rlimit nocore = {0, 0};
             setrlimit(RLIMIT_CORE, &nocore);
-            alarm(5);
-            int code = 0;
-            try {
-              const auto t = parse(full.substr(0, k));
-              code = (print(t) == full) ? 10 : 11;
-            } catch (...) {
-              code = 12;
+            for (size_t i = next; i != cuts.size(); ++i) {
+              alarm(5);
+              char code = 'E';
+              try {
+                const auto t = parse(full.substr(0, cuts[i]));
+                code = (print(t) == full) ? 'O' : 'L';
+              } catch (...) {
+                code = 'E';
+              }
+              if (write(fd[1], &code, 1) != 1) _exit(3);
             }
-            _exit(code);
+            _exit(0);
           }
+          close(fd[1]);
+          char ch;
+          size_t got = 0;
+          while (read(fd[0], &ch, 1) == 1) {
+            status += ch;
+            ++got;
+          }
+          close(fd[0]);
           int st = 0;
           waitpid(pid, &st, 0);
-          if (WIFEXITED(st)) {
-            const auto code = WEXITSTATUS(st);
-            status += code == 10 ? 'O' : code == 11 ? 'L' : code == 12 ? 'E' : 'C';
-          } else {
+          next += got;
+          if (next < cuts.size()) {  // the child died on cut number `next`
             status += 'C';
+            ++next;
           }
         }
         std::printf("TRUNC %zu %s\n", full.size(), status.c_str());
